@@ -31,6 +31,8 @@ def plans(ctx):
         for seg in ("whole", "coalesce", "two", "random", "bytes"):
             for gap in (0, 3):
                 out.append({"extra": extra, "seg": seg, "gap_ms": gap})
+    out.append({"extra": "sandwich", "seg": "coalesce", "gap_ms": 0})
+    out.append({"extra": "sandwich", "seg": "whole", "gap_ms": 0})
     return out
 
 
